@@ -3,6 +3,8 @@ package rules
 import (
 	"go/token"
 	"go/types"
+	"sort"
+	"strings"
 
 	"golang.org/x/tools/go/ssa"
 
@@ -97,4 +99,307 @@ func (c *Ctx) checkGuardedBy(fns []*ssa.Function, table []guardedField, keyPrefi
 
 var _ = types.Typ
 
-func c06Gen(c *Ctx) {}
+func c06Gen(c *Ctx) {
+	c06MutationSerial(c)
+	c06SlotOwnership(c)
+	c06AtomicInvalids(c)
+}
+
+func c06MutationSerial(c *Ctx) {
+	c.R.Rule("mutation-serial", "in every materialised executor with a mutation root: the function Exec runs under `case ast.Mutation` is the SDL's mutation type's object function, and it (with its closures) contains no FieldSet.Concurrently call and no go statement", 1)
+	n := 0
+	for _, g := range c.Gen {
+		sch := c.schema(g)
+		exec := c.genFunc(g, "Exec")
+		if sch == nil || exec == nil {
+			continue
+		}
+		if sch.Mutation == nil {
+			c.R.Note("gen:"+g.Name+"/mutation-root", g.Spec.Dir, "schema has no mutation type")
+			continue
+		}
+		n++
+		want := "_" + sch.Mutation.Name
+		// the closure of Exec guarded by Operation == "mutation"
+		var root *ssa.Function
+		for _, cl := range an.WithClosures(exec) {
+			for _, call := range an.CallsIn(cl, func(_ ssa.CallInstruction, ci an.CalleeInfo) bool {
+				return ci.Static != nil && ci.Static.Pkg == g.SSA && strings.HasPrefix(ci.Static.Name(), "_") && !strings.HasSuffix(ci.Static.Name(), "Middleware")
+			}) {
+				isMut := false
+				for _, f := range an.Facts(call) {
+					if s, ok := an.ConstString(f.Y); ok && s == "mutation" && f.Op == token.EQL {
+						isMut = true
+					}
+				}
+				if isMut {
+					root = call.Common().StaticCallee()
+				}
+			}
+		}
+		key := "gen:" + g.Name + "/mutation-root"
+		if root == nil {
+			// operation middleware wraps the call: accept the function by name
+			root = c.genFunc(g, want)
+		}
+		if root == nil || root.Name() != want {
+			c.R.Bad(key, c.pos(exec.Pos()), "Exec's mutation branch does not run "+want)
+			continue
+		}
+		bad := ""
+		for _, f := range an.WithClosures(root) {
+			for _, b := range f.Blocks {
+				for _, in := range b.Instrs {
+					if _, isGo := in.(*ssa.Go); isGo {
+						bad = "go statement at " + c.ipos(in)
+					}
+					if call, ok := in.(ssa.CallInstruction); ok && strings.HasSuffix(an.CalleeOf(call).FullName(), "graphql.FieldSet).Concurrently") {
+						bad = "FieldSet.Concurrently at " + c.ipos(in)
+					}
+				}
+			}
+		}
+		c.R.Check(bad == "", key, c.pos(root.Pos()), want+" assigns every root field inline", "the mutation root schedules fields concurrently ("+bad+"): top-level mutation fields no longer run one after another in document order")
+	}
+	if n == 0 {
+		c.R.Fail("mutation-serial: no materialised schema has a mutation type")
+	}
+}
+
+// goroutineClosures: closures that are started with go, or handed to FieldSet.Concurrently, with everything nested in them.
+func (c *Ctx) goroutineClosures(fns []*ssa.Function) map[*ssa.Function]*ssa.Function {
+	out := map[*ssa.Function]*ssa.Function{} // function -> the goroutine entry closure it belongs to
+	var add func(f, root *ssa.Function)
+	add = func(f, root *ssa.Function) {
+		if _, ok := out[f]; ok {
+			return
+		}
+		out[f] = root
+		for _, a := range f.AnonFuncs {
+			add(a, root)
+		}
+	}
+	for _, fn := range fns {
+		for _, b := range fn.Blocks {
+			for _, in := range b.Instrs {
+				switch x := in.(type) {
+				case *ssa.Go:
+					var callee *ssa.Function
+					switch v := x.Call.Value.(type) {
+					case *ssa.MakeClosure:
+						callee = v.Fn.(*ssa.Function)
+					default:
+						for _, d := range an.Defs(x.Call.Value) {
+							if mc, ok := d.(*ssa.MakeClosure); ok {
+								callee = mc.Fn.(*ssa.Function)
+							}
+						}
+					}
+					if callee != nil {
+						add(callee, callee)
+					}
+				case ssa.CallInstruction:
+					if strings.HasSuffix(an.CalleeOf(x).FullName(), "graphql.FieldSet).Concurrently") {
+						args := x.Common().Args
+						if mc, ok := args[len(args)-1].(*ssa.MakeClosure); ok {
+							f := mc.Fn.(*ssa.Function)
+							add(f, f)
+							// the innerFunc it calls
+							for _, bnd := range mc.Bindings {
+								for _, d := range an.Defs(loadOf(bnd)) {
+									if mc2, ok := d.(*ssa.MakeClosure); ok {
+										// innerFunc: a sibling closure invoked by f; its frame is private to each invocation
+										add(mc2.Fn.(*ssa.Function), mc2.Fn.(*ssa.Function))
+									}
+								}
+							}
+						}
+					}
+				}
+			}
+		}
+	}
+	return out
+}
+
+func loadOf(cell ssa.Value) ssa.Value {
+	for _, r := range an.CellRefs(cell) {
+		if ld, ok := r.(*ssa.UnOp); ok && ld.Op == token.MUL {
+			return ld
+		}
+	}
+	return cell
+}
+
+// definedIn: value v is defined inside function `root` or one of its nested closures (i.e. it is private to one goroutine instance).
+func definedIn(v ssa.Value, root *ssa.Function) bool {
+	f := v.Parent()
+	for f != nil {
+		if f == root {
+			return true
+		}
+		f = f.Parent()
+	}
+	return false
+}
+
+func c06SlotOwnership(c *Ctx) {
+	c.R.Rule("slot-ownership", "in every closure that runs on a spawned goroutine or is handed to FieldSet.Concurrently (package graphql and materialised executors): a store through memory captured from outside the goroutine is an element store whose index is private to that goroutine instance (its parameter or a value defined inside it); no other store to captured variables", 1)
+	type scope struct {
+		key string
+		fns []*ssa.Function
+	}
+	scopes := []scope{{"graphql", c.moduleFuncs(func(p string) bool { return p == pkgGraphql })}}
+	for _, g := range c.Gen {
+		scopes = append(scopes, scope{"gen:" + g.Name, c.genFuncs(g)})
+	}
+	total := 0
+	for _, sc := range scopes {
+		gcs := c.goroutineClosures(sc.fns)
+		var fs []*ssa.Function
+		for f := range gcs {
+			fs = append(fs, f)
+		}
+		sort.Slice(fs, func(i, j int) bool { return fs[i].Pos() < fs[j].Pos() })
+		for _, f := range fs {
+			root := gcs[f]
+			for _, b := range f.Blocks {
+				for _, in := range b.Instrs {
+					st, ok := in.(*ssa.Store)
+					if !ok {
+						continue
+					}
+					// walk the address to its root
+					addr := st.Addr
+					var idx []ssa.Value
+					viaElem := false
+					for i := 0; i < 12; i++ {
+						switch x := addr.(type) {
+						case *ssa.IndexAddr:
+							idx = append(idx, x.Index)
+							viaElem = true
+							addr = x.X
+							continue
+						case *ssa.FieldAddr:
+							addr = x.X
+							continue
+						case *ssa.UnOp:
+							if x.Op == token.MUL {
+								addr = x.X
+								continue
+							}
+						}
+						break
+					}
+					rootV := an.RootAlloc(addr)
+					if definedIn(rootV, root) {
+						continue // private memory of this goroutine instance
+					}
+					if _, isParam := rootV.(*ssa.Parameter); isParam && definedIn(rootV, root) {
+						continue
+					}
+					total++
+					key := sc.key + "/" + topFn(f).Name() + "/store"
+					if !viaElem {
+						c.R.Bad(key, c.ipos(st), "a closure running on its own goroutine assigns the captured variable "+rootV.Name()+": its siblings read and index that variable concurrently (data race; one element's failure changes the others)")
+						continue
+					}
+					priv := true
+					for _, ix := range idx {
+						okIx := false
+						for _, d := range an.Defs(ix) {
+							if _, isC := d.(*ssa.Const); isC {
+								continue
+							}
+							if definedIn(d, root) {
+								okIx = true
+							} else {
+								okIx = false
+								break
+							}
+						}
+						// field of a private value (d.i, rep.index)
+						if !okIx {
+							if fld, ok := ix.(*ssa.Field); ok && definedIn(fld.X, root) {
+								okIx = true
+							}
+							if fa, ok := loadAddr(ix).(*ssa.FieldAddr); ok && definedIn(an.RootAlloc(fa.X), root) {
+								okIx = true
+							}
+						}
+						priv = priv && okIx
+					}
+					c.R.Check(priv, key, c.ipos(st), "element store at an index private to the goroutine", "the goroutine stores into a shared slice at an index it does not own (captured loop variable or shared counter): two goroutines can write the same slot")
+				}
+			}
+		}
+	}
+	c.R.SetFloor(total)
+	if total < 50 {
+		c.R.Fail("slot-ownership examined only %d stores", total)
+	}
+}
+
+func c06AtomicInvalids(c *Ctx) {
+	c.R.Rule("atomic-invalids", "in materialised executors FieldSet.Invalids is never stored to directly (only sync/atomic.AddUint32 updates it), and every plain read of it in an object function happens after that set's Dispatch", 1)
+	total := 0
+	for _, g := range c.Gen {
+		nAtomic := 0
+		for _, fn := range c.genFuncs(g) {
+			// objects without concurrently resolved fields run on one goroutine: plain ++ is what the template emits for them
+			concurrent := false
+			for _, f2 := range an.WithClosures(topFn(fn)) {
+				for _, call := range an.CallsIn(f2, func(_ ssa.CallInstruction, ci an.CalleeInfo) bool {
+					return strings.HasSuffix(ci.FullName(), "graphql.FieldSet).Concurrently")
+				}) {
+					_ = call
+					concurrent = true
+				}
+			}
+			if !concurrent && topFn(fn).Name() != "processDeferredGroup" {
+				continue
+			}
+			for _, b := range fn.Blocks {
+				for _, in := range b.Instrs {
+					fa, ok := in.(*ssa.FieldAddr)
+					if !ok || fieldNameOf(fa) != "Invalids" || !an.NamedIs(fa.X.Type(), pkgGraphql, "FieldSet") {
+						continue
+					}
+					for _, use := range an.Referrers(fa) {
+						switch u := use.(type) {
+						case *ssa.Store:
+							total++
+							c.R.Bad("gen:"+g.Name+"/"+topFn(fn).Name()+"/Invalids-store", c.ipos(u), "FieldSet.Invalids is written with a plain store: concurrent fields update it at the same time (lost null propagation)")
+						case *ssa.Call:
+							if n := an.CalleeOf(u).FullName(); n == "sync/atomic.AddUint32" {
+								nAtomic++
+							}
+						case *ssa.UnOp:
+							if u.Op != token.MUL {
+								continue
+							}
+							total++
+							// plain read: a Dispatch call on the same set dominates it (or it is the deferred group's own set after its Dispatch)
+							ok := false
+							for _, b2 := range fn.Blocks {
+								for _, in2 := range b2.Instrs {
+									if call, isC := in2.(ssa.CallInstruction); isC && strings.HasSuffix(an.CalleeOf(call).FullName(), "graphql.FieldSet).Dispatch") && an.Before(in2, u) {
+										ok = true
+									}
+								}
+							}
+							c.R.Check(ok, "gen:"+g.Name+"/"+topFn(fn).Name()+"/Invalids-read", c.ipos(u), "read after Dispatch joined the concurrent fields", "FieldSet.Invalids is read before Dispatch has joined the concurrent fields: a late failure is not propagated")
+						}
+					}
+				}
+			}
+		}
+		if nAtomic == 0 {
+			c.R.Fail("gen:%s: no atomic update of FieldSet.Invalids found", g.Name)
+		}
+	}
+	c.R.SetFloor(total)
+	if total < 20 {
+		c.R.Fail("atomic-invalids examined only %d accesses", total)
+	}
+}
